@@ -48,6 +48,36 @@ def shared_class_groups():
     return out
 
 
+def spelled_class_groups(L):
+    """Classes containing NUL in every way the pattern language can write them - escapes, ranges that start at NUL, negation,
+    POSIX classes and the set operators {-} {+} (whose results the generator builds itself, with NUL in a different position than
+    the bracket parser leaves it) - round-4 seeds C04-r4m1 / C01-r4m1."""
+    def S(*xs):
+        out = set()
+        for x in xs:
+            out |= set(x) if not isinstance(x, int) else {x}
+        return frozenset(out)
+    r = lambda a, b: range(a, b + 1)
+    cntrl = S(r(0, 31), 127)
+    ent = [
+        ("[\\0a]", S(0, 97)), ("[\\x00a]", S(0, 97)), ("[\\000-\\037]", S(r(0, 31))), ("[a\\0]", S(0, 97)), ("[\\0-\\177]", S(r(0, 127))),
+        ("[^a]", S(r(0, 255)) - S(97)), ("[^\\0]", S(r(1, 255))), ("[[:cntrl:]]", cntrl), ("[^[:print:]]", S(r(0, 255)) - S(r(32, 126))),
+        ("[\\0-\\177]{-}[b-z]", S(r(0, 127)) - S(r(98, 122))), ("[\\0-\\10]{+}[x-z]", S(r(0, 8), r(120, 122))), ("[^a]{-}[b]", S(r(0, 255)) - S(97, 98)),
+        ("[a-c]{+}[\\0]", S(0, 97, 98, 99)), ("[\\0]{+}[a-c]", S(0, 97, 98, 99)), ("[[:cntrl:]]{-}[\\n]", cntrl - S(10)),
+        ("[\\0-\\xff]{-}[\\0]", S(r(1, 255))), ("[\\0-\\xff]{-}[a-z]{-}[\\x80-\\xff]", S(r(0, 127)) - S(r(97, 122))),
+        ("[\\0-\\5]{+}[\\x80-\\x82]{+}[a]", S(r(0, 5), r(128, 130), 97)), ("[\\0-\\10]{+}[x-z]{-}[\\5y]", S(r(0, 8), r(120, 122)) - S(5, 121)),
+        ("[a-z]{-}[b-y]{+}[\\0]", S(0, 97, 122)), ("[\\0\\xff]{+}[\\1-\\2]", S(0, 1, 2, 255)), ("[^\\0]{-}[a]", S(r(1, 255)) - S(97)),
+    ]
+    gs = []
+    alpha = bytes([0, 5, 10, 97, 98, 121, 122, 128, 255])
+    for i, (text, st) in enumerate(ent):
+        name = "SP%d" % i
+        a = ('set', st)
+        rules = [H.Rule(R.plus(a), scs=[name], text="(%s)+" % text), H.Rule(R.cat(A, Z, B), scs=[name])]
+        gs.append(H.Group([(name, True)], rules, name, alpha, L, [bytes([b]) for b in range(256)], label="nul-spelled:(%s)+ ; a\\x00b" % text))
+    return gs
+
+
 TABLES = ["-Cem", "-Cm", "-Ce", "-C", "-Cf", "-Cfe", "-CF", "-CFe"]
 
 
@@ -123,6 +153,14 @@ def run(tier):
     for tb in ("-Cfe", "-Cfae", "-CFe", "-Cem", "-Ce"):
         for extra, g in shared_class_groups():
             J("nul-shared%s-%d" % (tb, extra), [g], {"VF_BUFSIZES": "0,2"}, per=1, flex_args=[tb, "-8"], driver_args=["-H", "400"])
+    # every spelling of a class with NUL in it, packed and alone (alone: without a literal \0 elsewhere NUL's equivalence class is the class's own)
+    spg = spelled_class_groups(L)
+    for tb in TABLES:
+        J("spelled" + tb, spg, {"VF_BUFSIZES": "0,2"}, flex_args=[tb, "-8"])
+        if tb in ("-Cem", "-C", "-Cf", "-CFe") or not quick:
+            for g in spg:
+                solo = H.Group(g.conds, [g.rules[0]], g.enter, g.alphabet, g.maxlen, g.extras, label=g.label.replace(" ; a\\x00b", "") + " (alone)")
+                J("spelled-solo%s-%s" % (tb, g.enter), [solo], {"VF_BUFSIZES": "0,2"}, per=1, flex_args=[tb, "-8"])
     # 256 rules, 256 equivalence classes
     for tb in ("-Ce", "-Cem", "-C", "-Cfe", "-CFe", "-Cf"):
         J("allbytes" + tb, [allbytes_group()], {}, per=1, flex_args=[tb, "-8"])
